@@ -51,6 +51,13 @@ def build_source(t):
     n = A.size_bound(("tuple", (t,))) + 96
     has_len = t[0] in ("bytes", "string", "darr")
     LN = f"@external\ndef ln(x: {T}) -> uint256:\n    return len(x)\n" if has_len else ""
+    KW = (f"@external\ndef kw(x: {T}, b: uint8 = 5, c: Bytes[4] = b\"\\x01\\x02\") -> ({T}, uint8, Bytes[4]):\n"
+          f"    return x, b, c\n")
+    LN += "\n" + KW
+    lit = scalar_literal(t, d)
+    if lit is not None:
+        LN += (f"\n@external\ndef viaret_d(a: address) -> {T}:\n"
+               f"    return staticcall Ret(a).get(default_return_value={lit[0]})\n")
     if t[0] in A.SCALARS:
         # bare word, no tuple wrapping: the payload must be exactly one word
         LN += f"\n@external\ndef dec_nt(b: Bytes[{n}]) -> {T}:\n    return abi_decode(b, {T}, unwrap_tuple=False)\n"
@@ -89,6 +96,24 @@ def viaret(a: address) -> {T}:
     return src, n
 
 
+def scalar_literal(t, d):
+    """(vyper literal, value) usable as default_return_value, or None"""
+    k = t[0]
+    if k == "uint":
+        return ("7", 7)
+    if k == "int":
+        return ("-3", -3)
+    if k == "bool":
+        return ("True", 1)
+    if k == "address":
+        return ("0x0000000000000000000000000000000000000009", 9)
+    if k == "bytesM":
+        return ("0x" + "ab" * t[1], bytes([0xAB]) * t[1])
+    if k == "decimal":
+        return ("1.5", 15 * 10 ** 9)
+    return None
+
+
 def enc_bytes_arg(payload):
     """python encoding of a single `bytes` argument (offset, length, data, padding)"""
     pad = (-len(payload)) % 32
@@ -107,7 +132,8 @@ def returner_runtime(payload):
 def run_job(job):
     """job = (src, cfg, base_list, inputs) ; inputs[k] = list of (kind, data bytes) per value k
     kind in call | mem | ctor | ret.  Returns per input (ok, out)."""
-    src, cfg, bases, inputs = job
+    src, cfg, bases, inputs = job[:4]
+    kwsel = job[4] if len(job) > 4 else None
     from .configs import compile_src
     from .evm import Chain
     res = {"cfg": cfg.name, "error": None, "obs": []}
@@ -136,6 +162,11 @@ def run_job(job):
                     r = ch.call(main, mids["ln"] + data)
                 elif kind == "mem":
                     r = ch.call(main, mids["dec"] + enc_bytes_arg(data))
+                elif kind.startswith("kw"):
+                    r = ch.call(main, kwsel[int(kind[2])] + data)
+                elif kind == "retd":
+                    cal = ch.set_code(None, returner_runtime(data))
+                    r = ch.call(main, mids["viaret_d"] + int(cal, 16).to_bytes(32, "big"))
                 elif kind == "memnt":
                     r = ch.call(main, mids["dec_nt"] + enc_bytes_arg(data))
                 elif kind == "ctor":
